@@ -194,7 +194,9 @@ func VsymC38_Sessions() {
 		return w.issued[c-2]
 	}
 	for i := 0; i < k; i++ {
-		switch vsym_Choose("op", 4) {
+		switch vsym_Choose("op", 5) {
+		case 4: // the UI's session-status poll (an unprotected endpoint) with some cookie: reads only
+			w.a.handleSession(newVsymRW(), vsymReq("GET", pickCookie(), ""))
 		case 0: // login
 			w.curUser, w.curPass = "admin", "pw"
 			if vsym_Bool("wrongPassword") {
@@ -236,6 +238,35 @@ func VsymC38_Sessions() {
 			vsym_Assert(nextRan || rw.status == 401, "C38/rejected-with-401")
 		}
 	}
+}
+
+// VsymC38_LoginLimit: the limiter as handleLogin uses it. limit+2 login attempts from one address
+// at one instant, each with the right or a wrong password (solver's choice): at most `limit` of
+// them are evaluated (everything beyond is answered 429), whatever their outcomes were.
+func VsymC38_LoginLimit() {
+	vsymPinClock()
+	limit := vsym_Param("limit")
+	w := &vsymAuthWorld{ttlLeft: map[string]int64{}}
+	w.a = newAuthManager(AuthConfig{Username: "admin", Password: "pw"})
+	w.a.limiter = newLoginRateLimiter(limit, time.Minute)
+	w.install()
+	evaluated := 0
+	for i := 0; i < limit+2; i++ {
+		w.curUser, w.curPass = "admin", "pw"
+		if vsym_Bool("wrongPassword") {
+			w.curPass = "nope"
+		}
+		rw := newVsymRW()
+		w.a.handleLogin(rw, vsymReq("POST", "", `{"username":"`+w.curUser+`","password":"`+w.curPass+`"}`))
+		if rw.status != 429 {
+			evaluated++
+			vsym_Reach("evaluated")
+		} else {
+			vsym_Reach("limited")
+			vsym_Assert(vsymCookieToken(rw) == "", "C38/limited-attempt-gets-no-session")
+		}
+	}
+	vsym_Assert(evaluated <= limit, "C38/at-most-limit-logins-per-window")
 }
 
 // disabled auth (no credentials configured): nothing protected is ever served
